@@ -159,14 +159,18 @@ def _parse_glibc_version(version_str: str) -> tuple[int, int]:
     uses version strings like "2.20-2014.11"). See gh-3588.
     """
     m = re.match(r"(?P<major>[0-9]+)\.(?P<minor>[0-9]+)", version_str)
-    if not m:
-        warnings.warn(
-            f"Expected glibc version with 2 components major.minor, got: {version_str}",
-            RuntimeWarning,
-            stacklevel=2,
-        )
-        return -1, -1
-    return int(m.group("major")), int(m.group("minor"))
+    if m:
+        try:
+            return int(m.group("major")), int(m.group("minor"))
+        except ValueError:
+            # Beyond the interpreter's limit for integer string conversion.
+            pass
+    warnings.warn(
+        f"Expected glibc version with 2 components major.minor, got: {version_str}",
+        RuntimeWarning,
+        stacklevel=2,
+    )
+    return -1, -1
 
 
 @functools.lru_cache
